@@ -19,6 +19,12 @@ type FileWriter struct {
 	entryCount uint64
 	closed     bool
 	swampName  string // Swamp name for V3 format (written after header)
+
+	// endPos is the offset just past the last completely written block: the
+	// place where the next block goes. tailDirty is set when a failed block
+	// write may have left bytes behind endPos that still have to be cut off.
+	endPos    int64
+	tailDirty bool
 }
 
 // NewFileWriter creates a new file writer for the given path.
@@ -111,6 +117,9 @@ func (fw *FileWriter) createNewFile() error {
 		}
 	}
 
+	fw.endPos = int64(FileHeaderSize) + int64(len(nameBytes))
+	fw.tailDirty = false
+
 	return nil
 }
 
@@ -183,6 +192,8 @@ func (fw *FileWriter) openExistingFile() error {
 		file.Close()
 		return err
 	}
+	fw.endPos = end
+	fw.tailDirty = false
 
 	return nil
 }
@@ -259,9 +270,32 @@ func (fw *FileWriter) Flush() error {
 	return fw.flushLocked()
 }
 
+// discardTailLocked cuts off whatever a failed block write left behind the last
+// complete block and positions the file there again.
+func (fw *FileWriter) discardTailLocked() error {
+	if err := fw.file.Truncate(fw.endPos); err != nil {
+		return err
+	}
+	if _, err := fw.file.Seek(fw.endPos, io.SeekStart); err != nil {
+		return err
+	}
+	fw.tailDirty = false
+	return nil
+}
+
 // flushLocked writes the buffer to disk (must be called with lock held)
 func (fw *FileWriter) flushLocked() error {
-	header, compressed, err := fw.buffer.Flush()
+	if fw.tailDirty {
+		// An earlier block write failed and its leftovers could not be removed
+		// then. Nothing may be appended behind them.
+		if err := fw.discardTailLocked(); err != nil {
+			return err
+		}
+	}
+
+	// The entries stay in the buffer until the block is in the file: if the
+	// write fails they are written again by the next flush instead of being lost.
+	header, compressed, err := fw.buffer.Peek()
 	if err != nil {
 		return err
 	}
@@ -272,13 +306,22 @@ func (fw *FileWriter) flushLocked() error {
 
 	// Write block header
 	if _, err := fw.file.Write(header.Serialize()); err != nil {
+		fw.tailDirty = true
+		_ = fw.discardTailLocked()
 		return err
 	}
 
 	// Write compressed data
 	if _, err := fw.file.Write(compressed); err != nil {
+		// A partial block in the middle of the file would hide every block
+		// written after it: cut the file back to the end of the last block.
+		fw.tailDirty = true
+		_ = fw.discardTailLocked()
 		return err
 	}
+
+	fw.buffer.Clear()
+	fw.endPos += int64(BlockHeaderSize) + int64(len(compressed))
 
 	// Update in-memory counts
 	fw.blockCount++
